@@ -309,4 +309,48 @@ def run(ctx):
                           "a value that writes another unit than it declares is then emitted under the declared unit without a validation error",
                           "inner write goes through the body's own writer")
     ctx.floor("R19.8", "inner writes in unit-aware Value::write bodies", n8, 2)
+    # ------------------------------------------------------------------ R19.9 a collecting writer takes observations only under `written unit == promised unit`
+    # the writers that gather the observations of a wrapped value (distribution / mean collectors) compare the unit they are handed with
+    # the promised one they keep; the observations (parameter 2) are consumed only on paths that pass the `units are equal` outcome of
+    # that comparison - a comparison that is bypassed once some flag is set lets later values through under the wrong unit
+    n9 = 0
+    for cr in (CORE, "metrique_writer"):
+        for b in F.all_bodies(cr):
+            if not (b.name == "metric" and b.impl and (b.impl.get("trait") or "").endswith("::ValueWriter")) or "::tests::" in b.path or "::test_util" in b.path or b.arg_count < 3:
+                continue
+            pr = Prov(b)
+            cmps = []
+            for c in b.calls():
+                if c.name in ("eq", "ne") and "unit::Unit" in (c.self_ty or "") and len(c.args) == 2:
+                    oa, ob = pr.operand(c.args[0]), pr.operand(c.args[1])
+                    unit_side = lambda o: any(x[0] == "arg" and x[1] == 3 and not x[2] for x in o)
+                    kept_side = lambda o: any(x[0] == "arg" and x[1] == 1 and x[2] for x in o)
+                    if (unit_side(oa) and kept_side(ob)) or (unit_side(ob) and kept_side(oa)):
+                        cmps.append(c)
+            if not cmps:
+                continue
+            # where the observations are consumed: the distribution parameter handed to into_iter / a recording call
+            uses = [c for c in b.calls() if any(any(x[0] == "arg" and x[1] == 2 and not x[2] for x in pr.operand(a)) for a in c.args)]
+            eq_edges = set()
+            for c in cmps:
+                for sw, tg, oth in switch_on_call_result(b, c):
+                    t_true, t_false = tg.get(1, oth if 0 in tg else None), tg.get(0, oth if 1 in tg else None)
+                    eq_t = t_true if c.name == "eq" else t_false
+                    if eq_t is not None:
+                        eq_edges.add((sw, eq_t))
+            seen, st_ = {0}, [0]
+            while st_:
+                x = st_.pop()
+                for y in b.succ(x):
+                    if y in seen or (x, y) in eq_edges or b.is_cleanup(y):
+                        continue
+                    seen.add(y)
+                    st_.append(y)
+            for u in uses:
+                n9 += 1
+                ctx.check(u.bb not in seen and bool(eq_edges), "R19.9", fnkey(b) + "#observations-taken-only-when-unit-matches", loc(b, u.bb),
+                          "the collecting writer consumes the observations on a path that does not pass the `written unit == promised unit` outcome "
+                          "(the comparison is skipped or its result ignored there): numbers written under another unit are recorded under the promised one "
+                          "without a validation error", "every path to the consumption passes the units-equal edge")
+    ctx.floor("R19.9", "consumption sites in unit-checking collectors", n9, 1)
     return EXPL
